@@ -420,6 +420,8 @@ def out_params(ck, P, R="ATOM/out-param-written"):
 def run(ck):
     P = prog("K1")
     ck.configs.add("K1")
+    from .. import guards as _gfe
+    _gfe.fast_loop_epilogue(ck, P)
     coupdate(ck, P)
     total_writers(ck, P)
     out_params(ck, P)
